@@ -113,17 +113,19 @@ PENDING_REASON = "check not built yet in this session (planned: see DESIGN.md §
 # additions of session 4 (appended to the level text of the property)
 EXTRA = {
     "C01": " Second catalogue: the 25 meshops Transformer structs, 2-/4-component variants, line/line-strip/line-loop/quad meshes as live values, every Scan*/Modify* accessor, the remaining primitives, glTF export with materials.",
-    "C02": " Second catalogue as in C01 (without line topologies and ClearAttributeData, a builder step); ConstrainedBowyerWatson with a convex outline as a generator.",
-    "C03": " Every Transformer struct against the function it wraps (blank, explicit and blank-padded attribute names), the Modify* family incl. parallel variants (bit-exact against the callback), LaplacianSmoothAlongAxis, SmoothNormalsImplicitWeld (reference with a don't-care band at the weld distance).",
+    "C02": " Second catalogue as in C01 (without line topologies and ClearAttributeData, a builder step); ConstrainedBowyerWatson with a convex outline as a generator. Welding on an attribute other than the position.",
+    "C03": " Every Transformer struct against the function it wraps (blank, explicit and blank-padded attribute names), the Modify* family incl. parallel variants (bit-exact against the callback), LaplacianSmoothAlongAxis, SmoothNormalsImplicitWeld (reference with a don't-care band at the weld distance). Append with an attribute name in two widths across the operands.",
     "C04": " Caller-configured MeshWriter with a per-vertex s/t writer on meshes; reserved attribute names in other widths (Scale as float1, Color as float4); ply.Save over an existing longer/shorter file.",
     "C05": " obj.Load with a material library that defines a strict subset of the names used, then save again: no face lost.",
     "C06": " Incremental gltf.Writer: a WriteGLB between two AddScene calls must not change what is written afterwards (differential against the same calls without the snapshot).",
     "C07": " stl.Save over an existing longer/shorter file; stl.ReadNode must give ReadMesh's mesh.",
     "C08": " 4-byte count types on the texcoord list; an element declared after the last one polyform reads (edge / tristrips); ply.ReadNode must give ReadMesh's mesh.",
+    "C09": " Fields with one or two further float1 channels next to the distance (the marched surface is the distance's).",
+    "C18": " Two histories before every build: two solids of the same resolution with other sizes; a solid of this kind appended to loose vertices and to an empty mesh.",
     "C10": " Topologies the scans do not implement: the parallel scan must report failure recoverably like the sequential one (decided in a child process); a second field added in parallel to a canvas that already holds one.",
-    "C11": " Rejected parameter messages (wrong type, cut-off or empty JSON) change nothing.",
+    "C11": " Rejected parameter messages (wrong type, cut-off or empty JSON) change nothing. Sub-check messages: slice- and struct-typed parameters driven by JSON messages incl. ones that are wrong only part-way; fresh-decode model; values handed out earlier must not change.",
     "C13": " After every HTTP history has quiesced the autosaved file must be the save of the present graph.",
-    "C14": " 4-byte count types on the texcoord list of reference files.",
+    "C14": " 4-byte count types on the texcoord list of reference files. Cuts exactly between record blocks of large files (2^j and multiples of 4096 records); ascii reference files with blank lines; a prefix that lacks payload may not decode to the complete file's mesh.",
     "C15": " Six SPZ streams with 4-6 MiB of harmonics loaded one after another in one process (sizes neither ascending nor equal); spz.ReadNode must give spz.Read's cloud.",
     "C16": " BVH (NewBVHTree) and octree-backed tree (NewBVH) over the renderer's spheres, static and linearly moving, hierarchies built for a time window, rays carrying their own time, against HitList.",
     "C17": " Matrices whose entries share one magnitude 1e-6..1e6 (determinant 1e-24..1e24 at unchanged conditioning).",
